@@ -311,6 +311,17 @@ pub fn run_node(data: &Value) -> Vec<Line> {
             return lines;
         }
     };
+    // the precomputed problem itself, member by member, against the model's `precompute` definitions
+    // (matrix size and weights, column → course map, first columns, dummy / always-skipped rows, padded rooms)
+    {
+        let (w, dummy, skip, cmap, inv, rooms) = caobab_api::pre_dump(&pre);
+        let b = |v: &Vec<bool>| v.iter().map(|x| if *x { '1' } else { '0' }).collect::<String>();
+        let us = |v: &Vec<usize>| v.iter().map(|x| x.to_string()).collect::<Vec<_>>().join(",");
+        let expect = format!("n={} m={} col={} inv={} dummy={} skip={} rooms={} w={}", dummy.len(), cmap.len(), us(&cmap), us(&inv), b(&dummy), b(&skip),
+            rooms.as_ref().map(|r| us(r)).unwrap_or("-".to_string()),
+            w.iter().map(|r| r.iter().map(|x| x.to_string()).collect::<Vec<_>>().join(",")).collect::<Vec<_>>().join(";"));
+        lines.push(Line::corr(&["C01", "C02", "C06", "C10"], "PC", it.clone(), expect).trivial(cmap.is_empty()));
+    }
     let mut queue: Vec<NodeData> = vec![(vec![], vec![], vec![])];
     let mut visited = 0;
     while !queue.is_empty() && visited < max_nodes {
